@@ -18,7 +18,7 @@ from . import apisim_common as ac
 
 PROPERTY = "C13"
 TIERS = {
-    "quick": {"runs": 160, "budget_s": 115, "chunk": 2},
+    "quick": {"runs": 240, "budget_s": 115, "chunk": 2},
     "thorough": {"runs": 6000, "budget_s": 900, "chunk": 4},
 }
 REQUIRED_PROBES = {
